@@ -10,7 +10,7 @@ def showSys (s : Sys) : String :=
   let holder := match s.lock with | none => "-" | some t => toString t
   s!"{Sop.Driver.CommitProto.showHandle s.h} holder={holder} installs={s.flips.length}"
 
-def step (s : Sys) (ws : List String) : Sys × String :=
+def step1 (disc : Bool) (s : Sys) (ws : List String) : Sys × String :=
   match ws with
   | ["init", lid, a, b, act, ver, wip, del] =>
     match lid.toNat?, a.toNat?, b.toNat?, boolOf act, ver.toInt?, boolOf del with
@@ -35,9 +35,16 @@ def step (s : Sys) (ws : List String) : Sys × String :=
         | "crash" => some (.crash t) | "recover" => some (.recover t) | "restore" => some (.restore t) | _ => none
       match o with
       | none => (s, "bad-op")
-      | some o => let s' := HandleProto.step true s o; (s', showSys s')
+      | some o => let s' := HandleProto.step disc s o; (s', showSys s')
+  | ["lose"] => let s' := HandleProto.step disc s .lose; (s', showSys s')
   | _ => (s, "bad-op")
+
+/-- the state carries the mode: `free` switches the lock discipline off for the rest of the case (lock-loss cases) -/
+def step (st : Sys × Bool) (ws : List String) : (Sys × Bool) × String :=
+  match ws with
+  | ["free"] => ((st.1, false), "ok")
+  | _ => let (s', out) := step1 st.2 st.1 ws; ((s', st.2), out)
 
 end Sop.Driver.C37
 
-def main : IO Unit := Sop.Driver.runLoop (fun _ => Sop.Driver.C37.emptySys) Sop.Driver.C37.step
+def main : IO Unit := Sop.Driver.runLoop (fun _ => (Sop.Driver.C37.emptySys, true)) Sop.Driver.C37.step
